@@ -211,6 +211,62 @@ def g3_dead_code(ctx: Ctx):
 # ----------------------------------------------------------------------
 # X1 purity defaults
 
+def _outer_object_table(ctx: Ctx):
+    """`xs[i] = e` changes something the caller can see when `xs` names a list the function did not create.  Which list a
+    variable names at the store is a question about its reaching definition: the argument itself; a loop or branch merge
+    of it; an earlier element store (same object); a variable assigned from it, from one of its elements, or from a
+    call; a loop target ranging over it.  `_may_be_outer` is evaluated, from its source, on a definition graph holding
+    one of each and on the same shapes rooted in a list literal."""
+    from ..minipy import Interp, Obj
+    RDM = 'fpy2/analysis/reaching_defs.py'
+    cls = ctx.repo.cls(PURITY, '_Purity')
+    methods = {f.name: f for f in cls.body if isinstance(f, ast.FunctionDef)}
+    if '_may_be_outer' not in methods:
+        ctx.bad(PURITY, cls, '_Purity', 'what a stored-into variable may name is traced to its root', 'no such tracing: a store reached through a loop phi or an alias is taken for local')
+        return
+    same = ctx.fn(RDM, 'same_object_defs')
+    defs: list = []
+    uses: dict[int, int] = {}
+
+    def var(of: int):
+        v = Obj('Var')
+        uses[id(v)] = of
+        return v
+
+    def add(kind, **f):
+        d = Obj(kind, **f)
+        defs.append(d)
+        return len(defs) - 1
+    arg = add('AssignDef', site=Obj('Argument'), prev=None)
+    lit = add('AssignDef', site=Obj('Assign', expr=Obj('ListExpr')), prev=None)
+    rows: list[tuple[str, int, bool]] = [('the argument', arg, True), ('a list literal', lit, False)]
+    for root, outer, what in ((arg, True, 'the argument'), (lit, False, 'a local list')):
+        store = len(defs) + 1
+        phi = add('PhiDef', lhs=root, rhs=store, site=Obj('ForStmt', iterable=Obj('Range1')))
+        st = add('AssignDef', site=Obj('IndexedAssign'), prev=phi)
+        assert st == store
+        alias = add('AssignDef', site=Obj('Assign', expr=var(root)), prev=None)
+        elem = add('AssignDef', site=Obj('Assign', expr=Obj('ListRef', value=var(root))), prev=None)
+        tgt = add('AssignDef', site=Obj('ForStmt', iterable=var(root)), prev=None)
+        pick = add('AssignDef', site=Obj('Assign', expr=Obj('IfExpr', ift=var(lit), iff=var(root))), prev=None)
+        rows += [(f'a loop merge of {what}', phi, outer), (f'{what} after an element store in a loop', st, outer), (f'an alias of {what}', alias, outer),
+                 (f'an element of {what}', elem, outer), (f'a loop target over {what}', tgt, outer), (f'{what} or a literal, by a condition', pick, outer)]
+    call = add('AssignDef', site=Obj('Assign', expr=Obj('Call')), prev=None)
+    rows.append(('the result of a call', call, True))
+    du = Obj('DefineUseAnalysis', defs=defs, def_to_idx={d: i for i, d in enumerate(defs)})
+    du.fields['find_def_from_use'] = lambda e: defs[uses[id(e)]]
+    is_a = lambda k, c: k == c or (c == 'Definition' and k in ('AssignDef', 'PhiDef'))  # noqa: E731
+    for label, i, want in rows:
+        it = Interp({'same_object_defs': same}, methods=methods, is_a=is_a, self_obj=Obj('_Purity', def_use=du))
+        try:
+            got = bool(it.call_function(methods['_may_be_outer'], [defs[i], set()], bound_self=True))
+        except ShapeError as ex:
+            raise ShapeError(f'_may_be_outer not read on `{label}`: {ex}')
+        # saying "may be outer" of a local list only keeps a call that could have gone: safe
+        ctx.check(got or not want, PURITY, methods['_may_be_outer'], '_Purity._may_be_outer', f'a store into {label} is {"a side effect" if want else "local (or conservatively kept)"}',
+                  f'taken for a local list: a helper that zeroes its argument in a loop is pure to the analysis and the call is dropped as dead code')
+
+
 def x1_purity(ctx: Ctx):
     repo = ctx.repo
     q = '_Purity._visit_call'
@@ -235,8 +291,10 @@ def x1_purity(ctx: Ctx):
     q = '_Purity._visit_indexed_assign'
     fn = ctx.fn(PURITY, q)
     tests = [s for s in walk_no_nested(fn) if isinstance(s, ast.If)]
-    good = len(tests) == 1 and 'isinstance(d.site, Argument | FuncDef)' in norm(tests[0].test) and isinstance(tests[0].body[-1], ast.Raise)
-    ctx.check(good, PURITY, fn, q, 'a store into an argument or a captured variable is impure', 'store-into-parameter rule changed')
+    good = len(tests) == 1 and norm(tests[0].test) == 'self._may_be_outer(d, set())' and isinstance(tests[0].body[-1], ast.Raise) \
+        and 'd = self.def_use.find_def_from_use(stmt)' in norm(fn, 3000)
+    ctx.check(good, PURITY, fn, q, 'an element store is judged by what the list variable may name', 'store rule changed')
+    _outer_object_table(ctx)
     ap = ctx.fn(PURITY, '_Purity.apply')
     handlers = [h for s in walk_no_nested(ap) if isinstance(s, ast.Try) for h in s.handlers]
     good = len(handlers) == 1 and dotted(handlers[0].type) == '_ImpureError' and isinstance(handlers[0].body[0], ast.Return) \
@@ -414,7 +472,12 @@ MUTANTS = [
     Mutant('dce-stale-defuse', DCE, "            self.def_use = DefineUse.analyze(self.func)\n", "            pass\n", 'C07.G3'),
     Mutant('unknown-call-pure', PURITY, "            case None:\n                # unknown function -> impure by default\n                raise _ImpureError(f'Impure: Unknown function call {e}')", "            case None:\n                pass", 'C07.X1'),
     Mutant('foreign-call-pure', PURITY, "            case _:\n                # any other foreign callable (e.g. `print`) -> impure by default\n                raise _ImpureError(f'Impure: call to foreign function {e}')", "            case _:\n                pass", 'C07.X1'),
-    Mutant('param-store-pure', PURITY, "        if isinstance(d, AssignDef) and isinstance(d.site, Argument | FuncDef):", "        if isinstance(d, AssignDef) and isinstance(d.site, FuncDef):", 'C07.X1'),
+    Mutant('param-store-pure', PURITY, "            case Argument() | FuncDef():\n                return True", "            case FuncDef():\n                return True", 'C07.X1'),
+    Mutant('store-in-a-loop-is-local', PURITY, "        if isinstance(d, PhiDef) or isinstance(d.site, IndexedAssign):\n            return any(\n                self._may_be_outer(self.def_use.defs[i], seen)\n                for i in same_object_defs(d)\n            )\n",
+           "        if isinstance(d, PhiDef) or isinstance(d.site, IndexedAssign):\n            return False\n", 'C07.X1', 'finding F62 before its repair: a helper that zeroes its argument in a loop is pure, the call is dropped'),
+    Mutant('store-through-an-alias-is-local', PURITY, "                case Var():\n                    if self._may_be_outer(self.def_use.find_def_from_use(e), seen):\n                        return True", "                case Var():\n                    pass", 'C07.X1'),
+    Mutant('store-through-a-loop-target-is-local', PURITY, "            case ForStmt(iterable=e):\n                # the loop target names the elements of the iterable\n                pass\n", "", 'C07.X1'),
+    Mutant('call-result-is-a-new-list', PURITY, "                case Call():\n                    # may hand back (part of) one of its arguments\n                    return True\n", "", 'C07.X1'),
     Mutant('fold-without-context', PE, "        if self._is_value(e.arg) and ctx is not None:", "        if self._is_value(e.arg):", 'C07.G4'),
     Mutant('ctor-under-outer-ctx', PE, "        self._visit_expr(stmt.ctx, REAL)", "        self._visit_expr(stmt.ctx, ctx)", 'C07.G4'),
     Mutant('unknown-with-keeps-outer-ctx', PE, "        new_ctx: Context | None = None\n        if self._is_value(stmt.ctx):", "        new_ctx: Context | None = ctx\n        if self._is_value(stmt.ctx):", 'C07.G4'),
